@@ -22,6 +22,8 @@ class ModuleInfo:
         self.imports = {}  # local name -> (module name, attr or None)
         self.assigns = {}  # name -> ast expr (last top-level assignment)
         self.stars = []  # modules imported with `from m import *`
+        self.mutations = {}  # name -> [top-level statements that mutate the global after its assignment]
+        self.mutated_opaquely = set()  # globals mutated by module-level code the executor does not replay
         self.is_package = os.path.basename(path) == "__init__.py"
         self._scan(self.tree.body)
 
@@ -30,9 +32,11 @@ class ModuleInfo:
             if isinstance(node, (ast.FunctionDef, ast.ClassDef)):
                 self.defs[node.name] = node
             elif isinstance(node, ast.Assign):
+                self._scan_mutation(node)
                 for t in node.targets:
                     if isinstance(t, ast.Name):
                         self.assigns[t.id] = node.value
+                        self.mutations.pop(t.id, None)
                     elif isinstance(t, ast.Tuple) and isinstance(node.value, ast.Tuple) and len(t.elts) == len(node.value.elts):
                         for tt, vv in zip(t.elts, node.value.elts):
                             if isinstance(tt, ast.Name):
@@ -66,6 +70,43 @@ class ModuleInfo:
             elif isinstance(node, (ast.If, ast.Try)):
                 # e.g. try: import x / except ImportError
                 self._scan(node.body)
+            else:
+                self._scan_mutation(node)
+
+    @staticmethod
+    def _mutated_name(node):
+        """NAME.method(...), NAME[...] = v, NAME.attr = v, NAME += v, del NAME[...] at module level -> NAME"""
+        def base(t):
+            while isinstance(t, (ast.Subscript, ast.Attribute)):
+                t = t.value
+            return t.id if isinstance(t, ast.Name) else None
+
+        if isinstance(node, ast.Expr) and isinstance(node.value, ast.Call) and isinstance(node.value.func, ast.Attribute):
+            return [base(node.value.func.value)]
+        if isinstance(node, ast.Assign):
+            return [base(t) for t in node.targets if isinstance(t, (ast.Subscript, ast.Attribute))]
+        if isinstance(node, ast.AugAssign):
+            return [base(node.target)]
+        if isinstance(node, ast.Delete):
+            return [base(t) for t in node.targets if isinstance(t, (ast.Subscript, ast.Attribute))]
+        return []
+
+    def _scan_mutation(self, node):
+        simple = (isinstance(node, ast.Expr) and isinstance(node.value, ast.Call) and isinstance(node.value.func, ast.Attribute)
+                  and isinstance(node.value.func.value, ast.Name)) or (
+            isinstance(node, ast.Assign) and len(node.targets) == 1 and isinstance(node.targets[0], ast.Subscript)
+            and isinstance(node.targets[0].value, ast.Name))
+        if simple:
+            for nm in self._mutated_name(node):
+                if nm in self.assigns:
+                    self.mutations.setdefault(nm, []).append(node)
+            return
+        for sub in ast.walk(node):
+            if isinstance(sub, (ast.FunctionDef, ast.ClassDef, ast.Lambda)):
+                continue
+            for nm in self._mutated_name(sub):
+                if nm in self.assigns:
+                    self.mutated_opaquely.add(nm)
 
 
 _cache = {}
